@@ -5,18 +5,26 @@
 (*   [t |-> "nd", shape, elems]  n-d arrays                                       *)
 (*   [t |-> "maybe", has, val]   optionals                                        *)
 (*   [t |-> "tuple", items]      tuples                                           *)
+(*   [t |-> "either", tag, val]  variants (tag "L" / "R", val = the active alternative); *)
+(*                               against a plain value the active alternative is compared *)
 (* isclose works on values scaled by 4 (quarters) with eps given in quarters.     *)
 EXTENDS Base
 RECURSIVE IsEqual(_, _), IsClose(_, _, _)
 IsEqual(x, y) ==
-    IF x.t # y.t THEN FALSE
+    IF x.t = "either" /\ y.t = "either" THEN x.tag = y.tag /\ IsEqual(x.val, y.val)
+    ELSE IF x.t = "either" THEN IsEqual(x.val, y)
+    ELSE IF y.t = "either" THEN IsEqual(x, y.val)
+    ELSE IF x.t # y.t THEN FALSE
     ELSE CASE x.t = "num" -> x.v = y.v
            [] x.t = "idx" -> Len(x.v) = Len(y.v) /\ x.v = y.v
            [] x.t = "nd" -> Len(x.shape) = Len(y.shape) /\ x.shape = y.shape /\ x.elems = y.elems
            [] x.t = "maybe" -> x.has = y.has /\ (x.has => IsEqual(x.val, y.val))
            [] x.t = "tuple" -> Len(x.items) = Len(y.items) /\ \A i \in 1..Len(x.items) : IsEqual(x.items[i], y.items[i])
 IsClose(x, y, eps) ==
-    IF x.t # y.t THEN FALSE
+    IF x.t = "either" /\ y.t = "either" THEN x.tag = y.tag /\ IsClose(x.val, y.val, eps)
+    ELSE IF x.t = "either" THEN IsClose(x.val, y, eps)
+    ELSE IF y.t = "either" THEN IsClose(x, y.val, eps)
+    ELSE IF x.t # y.t THEN FALSE
     ELSE CASE x.t = "num" -> Abs(x.v - y.v) < eps
            [] x.t = "nd" -> x.shape = y.shape /\ \A i \in 1..Len(x.elems) : Abs(x.elems[i] - y.elems[i]) < eps
            [] x.t = "maybe" -> x.has = y.has /\ (x.has => IsClose(x.val, y.val, eps))
